@@ -122,9 +122,60 @@ def impl_verdict(inst, rows):
     return valid, mk, raises
 
 
+def _plain_row(entries):
+    out = []
+    for e in entries:
+        o = e.operation
+        out.append([{"name": o.name, "job": o.job_name, "machine": o.machine.name, "dur": o.processing_duration},
+                    e.start_time if e.is_scheduled else None])
+    return out
+
+
+def impl_stored(inst, rows):
+    """What an accepted result object holds: result.schedule[k] (and result.valid_schedule[k] when valid) for every
+    key k of the caller's mapping (in the caller's order) and for every job of the instance."""
+    from queasars.job_shop_scheduling.problem_instances import JobShopSchedulingResult
+
+    pi = jssp.impl_instance(inst)
+    given = jssp.impl_general_schedule(rows)
+    res = JobShopSchedulingResult(pi, given)
+    per_key, problems = [], []
+    for (jd, want), key in zip(rows, given):
+        try:
+            got = _plain_row(res.schedule[key])
+        except KeyError:
+            problems.append(f"result.schedule has no entry for job {jd['name']!r}")
+            continue
+        per_key.append([jd, got])
+        if got != [[o, st] for o, st in want]:
+            problems.append(f"result.schedule[{jd['name']!r}] holds {got}, the caller passed {want}")
+    if len(res.schedule) != len(given):
+        problems.append(f"result.schedule has {len(res.schedule)} entries, the caller passed {len(given)}")
+    for job in pi.jobs:
+        try:
+            got = res.schedule[job]
+        except KeyError:
+            problems.append(f"result.schedule has no entry for the instance's job {job.name!r}")
+            continue
+        if tuple(e.operation for e in got) != tuple(job.operations):
+            problems.append(f"result.schedule[{job.name!r}] wraps operations {[str(e.operation) for e in got]} instead of the job's own")
+    if res.is_valid:
+        vs = res.valid_schedule
+        for (jd, want), key in zip(rows, given):
+            if _plain_row(vs[key]) != [[o, st] for o, st in want]:
+                problems.append(f"result.valid_schedule[{jd['name']!r}] differs from what the caller passed")
+    return per_key, problems
+
+
 # ------------------------------------------------------------------ generators
 def gen_verdict_case(rng):
     inst = jssp.random_instance(rng, max_jobs=3, max_machines=3, max_dur=3)
+    if rng.random() < 0.12:
+        for _ in range(20):
+            cand = gen_confusable_instance(rng)
+            if spec_instance(cand) and all(spec_job(j) for j in cand["jobs"]):
+                inst = cand
+                break
     mode = rng.random()
     sched = []
     if mode < 0.45:
@@ -147,10 +198,40 @@ def gen_verdict_case(rng):
 
 
 NAMES = ["", "a", "b", "a_b", "é\"x"]
+# names that are different strings (so different machines / jobs / operations by the documented rules, which speak of names)
+# but that a normalising comparison (case folding, stripping, unicode normalisation) would identify
+CONFUSABLE = ["m1", "M1", "m1 ", " m1", "m\u00e9", "me\u0301", "M\u00c9", "\uff4d1", "m01"]
+
+
+TWINS = [("m1", "M1"), ("m1", "m1 "), ("m1", " m1"), ("m\u00e9", "me\u0301"), ("m\u00e9", "M\u00c9"), ("m1", "\uff4d1"), ("m1", "m01"), ("stra\u00dfe", "STRASSE")]
+
+
+def gen_confusable_instance(rng):
+    """An instance built around one pair of twin names (a, b): a is declared, b is declared in half of the cases;
+    operations use a and b (so when b is not declared the rules reject; when both are declared, operations on a and on b
+    run on DIFFERENT machines and one job may visit both).  Job and operation names use twins too."""
+    a, b = rng.choice(TWINS)
+    if rng.random() < 0.5:
+        a, b = b, a
+    declared = [a] + ([b] if rng.random() < 0.5 else []) + (["other"] if rng.random() < 0.3 else [])
+    rng.shuffle(declared)
+    jobs = []
+    jnames = rng.sample(["j", "J", "j ", "\uff4a"], rng.randint(1, 3))
+    for jn in jnames:
+        ms = rng.sample([a, b] + (["other"] if "other" in declared else []), rng.randint(1, 2))
+        onames = rng.sample(["o", "O", "o ", "\uff4f"], len(ms))
+        jobs.append({"name": jn, "ops": [{"name": on, "job": jn, "machine": m, "dur": rng.randint(1, 3)} for on, m in zip(onames, ms)]})
+    return {"name": "inst", "machines": declared, "jobs": jobs}
 
 
 def gen_ctor_case(rng):
-    kind = rng.choice(["machine", "operation", "job", "instance", "result", "result"])
+    kind = rng.choice(["machine", "operation", "job", "instance", "result", "result", "confusable", "confusable-job"])
+    if kind == "confusable":
+        return "instance", gen_confusable_instance(rng)
+    if kind == "confusable-job":
+        # a job whose operations visit confusable twins (different machines by name) or the same name twice
+        ms = list(rng.choice(TWINS)) + [rng.choice(CONFUSABLE)] * rng.randint(0, 1)
+        return "job", {"name": "a", "ops": [{"name": n, "job": "a", "machine": m, "dur": 1} for n, m in zip(["x", "X", "x "], ms)]}
     if kind == "machine":
         return kind, rng.choice(NAMES + [" "])
     if kind == "operation":
@@ -212,6 +293,17 @@ def do_case(ctx, case):
             ctx.violation("oracle", f"verdict-{what.split()[0]}", f"{what} disagrees with the JSSP definition: impl valid={valid} makespan={mk} accessor_raises={raises}, definition valid={sv} makespan={sm}", case)
         ctx.tally("verdict:valid" if sv else "verdict:invalid")
         return f"CVerdict {jssp.g_inst(inst)} {jssp.g_general_sched(rows)} {g_bool(valid)} {g_opt(None if mk is None else g_z(mk))} {g_bool(raises is True)}"
+    if kind == "stored":
+        inst, rows = case["inst"], case["rows"]
+        try:
+            per_key, problems = impl_stored(inst, rows)
+        except Exception as e:
+            ctx.violation("oracle", f"stored-exception-{type(e).__name__}", f"reading the schedule of an accepted result raised {type(e).__name__}: {e}", case)
+            return None
+        for pr in problems[:1]:
+            ctx.violation("oracle", "stored-schedule-does-not-match", f"accepted result's schedule does not match its instance / the caller's mapping: {pr}", case)
+        ctx.tally("stored:" + ("caller-order" if [j for j, _ in rows] == inst["jobs"] else "permuted"))
+        return f"CStored {jssp.g_inst(inst)} {jssp.g_general_sched(rows)} {jssp.g_general_sched(per_key)}"
     if kind == "queries":
         inst, rows, qs = case["inst"], case["rows"], case["queries"]
         try:
@@ -268,7 +360,7 @@ def exhaustive_small(ctx):
 def run(ctx):
     translate.check_link(ctx, "C19")  # regenerate Gallina from /repo's current source; link lemmas coq/link/C19Link.v
     ctx.rule = ("random valid instances (1-3 jobs, 1-3 machines) x start assignments from {unscheduled,-1..7} (half near-feasible), dict order shuffled; "
-                "constructor arguments from a small malformed alphabet; distinct = distinct (kind, data); non-trivial = verdict cases with >=2 operations, constructor cases always")
+                "accepted results re-read per key (result.schedule[k], valid_schedule[k]) with the caller's mapping in permuted key order; constructor arguments from a small malformed alphabet incl. names that differ only by case / blanks / unicode normal form; distinct = distinct (kind, data); non-trivial = verdict cases with >=2 operations, constructor cases always")
     cases = []
     cdir = core.ROOT / "corpus" / "C19"
     for f in sorted(cdir.glob("*.json")) if cdir.exists() else []:
@@ -280,7 +372,15 @@ def run(ctx):
         inst, rows = gen_verdict_case(ctx.rng)
         qs = [ctx.rng.choice(["valid", "makespan", "accessor"]) for _ in range(ctx.rng.randint(1, 4))]
         cases.append({"kind": "queries", "inst": inst, "rows": rows, "queries": qs})
-    for _ in range(ctx.n(400, 8000)):
+    for _ in range(ctx.n(250, 4000)):
+        inst, rows = gen_verdict_case(ctx.rng)
+        if len(rows) > 1 and ctx.rng.random() < 0.8:
+            perm = rows[:]
+            while perm == rows:
+                ctx.rng.shuffle(perm)
+            rows = perm
+        cases.append({"kind": "stored", "inst": inst, "rows": rows})
+    for _ in range(ctx.n(500, 8000)):
         k, arg = gen_ctor_case(ctx.rng)
         cases.append({"kind": k, "arg": arg})
     if not ctx.quick:
@@ -289,7 +389,7 @@ def run(ctx):
     glits, kept = [], []
     for c in cases:
         g = do_case(ctx, c)
-        nontriv = c["kind"] not in ("verdict", "queries") or sum(len(e) for _, e in c["rows"]) >= 2
+        nontriv = c["kind"] not in ("verdict", "queries", "stored") or sum(len(e) for _, e in c["rows"]) >= 2
         ctx.case(c, nontriv, sample=c if len(ctx.samples) < 3 or (c["kind"] != "verdict" and len(ctx.samples) < 5) else None)
         if g is not None:
             glits.append(g)
